@@ -77,6 +77,21 @@ theorem Reach.marker_of_closed {g : G} (R : Reach g) (hq : cnt Frame.active g = 
   simp only [↓reduceIte] at h1
   omega
 
+/-- order in a list implies order in each of its prefixes -/
+theorem orderedIn_prefix (a b : Nat) (l m : List Nat) (h : orderedIn a b (l ++ m) = true) :
+    orderedIn a b l = true := by
+  induction l with
+  | nil => simp [orderedIn, indexOf?]
+  | cons y l ih =>
+    simp only [orderedIn, List.cons_append, indexOf?] at h ih ⊢
+    by_cases ha : (a == y) = true <;> by_cases hb : (b == y) = true <;>
+      simp only [ha, hb, if_true, if_false, Bool.false_eq_true] at h ⊢
+    · exact h
+    · cases h4 : indexOf? l b <;> simp
+    · cases h1 : indexOf? (l ++ m) a <;> simp [h1] at h
+    · cases h1 : indexOf? (l ++ m) a <;> cases h2 : indexOf? (l ++ m) b <;> cases h3 : indexOf? l a <;>
+        cases h4 : indexOf? l b <;> simp_all <;> omega
+
 /-- **The oracle holds of the model.** For every reachable end state — no op in flight and the
 receiver ran until it blocked — no clause of `Obs.violations` is violated. -/
 theorem violations_nil {g : G} (R : Reach g) (he : endState g = true) : (obsOf g).violations = [] := by
@@ -84,13 +99,30 @@ theorem violations_nil {g : G} (R : Reach g) (he : endState g = true) : (obsOf g
   have Q := R.q
   simp only [endState, quiescent, Bool.and_eq_true, beq_iff_eq, List.isEmpty_iff, Bool.or_eq_true,
     Bool.not_eq_true'] at he
-  obtain ⟨⟨hq, hqueue⟩, hdone⟩ := he
+  obtain ⟨⟨⟨hq, hqueue⟩, htaken⟩, hdone⟩ := he
+  -- started handlers are among the dequeued messages …
+  have hsub : ∀ i, g.sh.handled.count i ≤ g.sh.deqd.count (.msg i) := by
+    intro i
+    have := congrArg (List.count i) Q.handled_eq
+    simp only [List.count_append, count_msgIds] at this
+    omega
+  -- … and are all of them unless the loop was left for another reason than the marker
+  have hEq : g.sh.stoppedByOther = false → g.sh.handled = msgIds g.sh.deqd := by
+    intro hso
+    have hd : g.sh.dropped = [] := by
+      cases hd : g.sh.dropped with
+      | nil => rfl
+      | cons x l => have := (Q.dropped_why (by simp [hd])).1; simp [hso] at this
+    have ht : g.sh.taken = none := by simpa using htaken
+    have := Q.handled_eq
+    rw [hd, ht] at this
+    simpa using this.symm
   have hcount : ∀ i, g.sh.handled.count i ≤ 1 := by
     intro i
     have h1 := (R.ids i).one
     have hc := congrArg (List.count (Item.msg i)) Q.conserve
     simp only [List.count_append] at hc
-    rw [Q.handled_eq, count_msgIds]
+    have := hsub i
     omega
   -- everything enqueued was dequeued, unless the receiver was stopped from outside
   have hall : g.sh.stoppedByOther = false → g.sh.flushed = [] := by
@@ -108,8 +140,10 @@ theorem violations_nil {g : G} (R : Reach g) (he : endState g = true) : (obsOf g
   have c2 : g.sh.handled.all (fun i => g.sh.rets.any (fun r => r.isOkSend && r.id == i)) = true := by
     rw [List.all_eq_true]
     intro i hi
-    have hd : 0 < (msgIds g.sh.deqd).count i := by rw [← Q.handled_eq]; exact List.count_pos_iff.mpr hi
-    rw [count_msgIds] at hd
+    have hd : 0 < g.sh.deqd.count (.msg i) := by
+      have := hsub i
+      have : 0 < g.sh.handled.count i := List.count_pos_iff.mpr hi
+      omega
     have henq : 0 < g.sh.enq.count (.msg i) := by
       have hc := congrArg (List.count (Item.msg i)) Q.conserve
       simp only [List.count_append] at hc
@@ -141,7 +175,7 @@ theorem violations_nil {g : G} (R : Reach g) (he : endState g = true) : (obsOf g
         simp only [List.count_append] at hc
         rw [hall hso, hqueue] at hc
         simp only [List.count_nil, Nat.add_zero] at hc
-        have : 0 < g.sh.handled.count r.id := by rw [Q.handled_eq, count_msgIds]; omega
+        have : 0 < g.sh.handled.count r.id := by rw [hEq hso, count_msgIds]; omega
         simpa using List.count_pos_iff.mp this
     · rfl
   have cOrd : g.sh.rets.all (fun r2 => !r2.isOkSend || r2.seenOk.all (fun m1 => orderedIn m1 r2.id g.sh.handled)) = true := by
@@ -168,10 +202,12 @@ theorem violations_nil {g : G} (R : Reach g) (he : endState g = true) : (obsOf g
       have h1 := (R.ids r2.id).one
       have hbef := hO.ord hpos (by omega)
       rw [Q.conserve, List.append_assoc] at hbef
-      rw [Q.handled_eq]
-      apply orderedIn_of_before m1 r2.id (hO.ne hpos) _ _ _ hbef
-      rw [← List.append_assoc, ← Q.conserve]
-      omega
+      have hord : orderedIn m1 r2.id (msgIds g.sh.deqd) = true := by
+        apply orderedIn_of_before m1 r2.id (hO.ne hpos) _ _ _ hbef
+        rw [← List.append_assoc, ← Q.conserve]
+        omega
+      rw [Q.handled_eq, List.append_assoc] at hord
+      exact orderedIn_prefix _ _ _ _ hord
   have c4 : g.sh.rets.all (fun r => !(r.isSend && r.late) || r.res == .sendErr) = true := by
     rw [List.all_eq_true]
     intro r hr
@@ -241,5 +277,57 @@ theorem violations_nil {g : G} (R : Reach g) (he : endState g = true) : (obsOf g
       simp [(I.marker_imp hm).1]
   simp only [Obs.violations, obsOf, c1, c2, c3, cOrd, c4, c5, c6, hdr, c8, c9, ↓reduceIte, List.append_nil,
     beq_self_eq_true]
+
+/-- Whenever the live receiver's mailbox is quiet, every send that has returned `Ok` has been handled
+(no quiescence of the senders needed: a returned `Ok` means the enqueue is done). -/
+theorem quiet_all_ok_handled {g : G} (R : Reach g) (hq : quiet g.sh = true) :
+    ∀ r ∈ g.sh.rets, r.isOkSend = true → r.id ∈ g.sh.handled := by
+  have Q := R.q
+  simp only [quiet, Bool.and_eq_true, List.isEmpty_iff, Option.isNone_iff_eq_none, Bool.not_eq_true'] at hq
+  obtain ⟨⟨⟨⟨hqueue, htaken⟩, hopen⟩, hrs⟩, hso⟩ := hq
+  intro r hr hok
+  simp only [Ret.isOkSend, Ret.isSend, Bool.and_eq_true] at hok
+  have hpos : 0 < g.sh.rets.countP (Ret.okFor r.id) :=
+    List.countP_pos_iff.mpr ⟨r, hr, by
+      simp only [Ret.okFor, beq_self_eq_true, Bool.true_and, Bool.and_eq_true]; exact hok⟩
+  have h2 := (R.ids r.id).oks
+  have hc := congrArg (List.count (Item.msg r.id)) Q.conserve
+  simp only [List.count_append] at hc
+  rw [Q.flushed_closed hopen, hqueue] at hc
+  simp only [List.count_nil, Nat.add_zero] at hc
+  have hd : g.sh.dropped = [] := by
+    cases hd : g.sh.dropped with
+    | nil => rfl
+    | cons x l => have := (Q.dropped_why (by simp [hd])).1; simp [hso] at this
+  have hh := congrArg (List.count r.id) Q.handled_eq
+  rw [hd, htaken] at hh
+  simp only [List.count_append, count_msgIds, Option.toList, List.count_nil, Nat.add_zero] at hh
+  exact List.count_pos_iff.mp (by omega)
+
+/-- What an empty `Obs.violations` says, clause by clause. -/
+theorem violations_nil_clauses (o : Obs) (h : o.violations = []) :
+    nodupNat o.handled = true ∧
+    o.handled.all (fun i => o.rets.any (fun r => r.isOkSend && r.id == i)) = true ∧
+    (o.otherExit || o.rets.all (fun r => !r.isOkSend || o.handled.contains r.id)) = true ∧
+    o.rets.all (fun r2 => !r2.isOkSend || r2.seenOk.all (fun m1 => orderedIn m1 r2.id o.handled)) = true ∧
+    o.rets.all (fun r => !(r.isSend && r.late) || r.res == .sendErr) = true ∧
+    (o.word.count == 0) = true ∧
+    (!o.word.closed || o.word.marker) = true ∧
+    o.drainedExits ≤ 1 ∧
+    (!o.word.closed || o.otherExit || (o.drainedExits == 1 && !o.alive)) = true ∧
+    (o.word.closed || o.drainedExits == 0) = true := by
+  simp only [Obs.violations, List.append_eq_nil_iff] at h
+  obtain ⟨⟨⟨⟨⟨⟨⟨⟨⟨h1, h2⟩, h3⟩, h4⟩, h5⟩, h6⟩, h7⟩, h8⟩, h9⟩, h10⟩ := h
+  refine ⟨?_, ?_, ?_, ?_, ?_, ?_, ?_, ?_, ?_, ?_⟩
+  · split at h1 <;> simp_all
+  · split at h2 <;> simp_all
+  · split at h3 <;> simp_all
+  · split at h4 <;> simp_all
+  · split at h5 <;> simp_all
+  · split at h6 <;> simp_all
+  · split at h7 <;> simp_all
+  · split at h8 <;> simp_all
+  · split at h9 <;> simp_all
+  · split at h10 <;> simp_all
 
 end Admission
